@@ -239,7 +239,7 @@ func checkC04(a *checkArgs, r *Result) error {
 	defer dp.Close()
 	r.Rule = "base xz streams (library-written single/multi block with every check type incl. none, liblzma corpus); mutants: every single-bit flip (exhaustive on the small bases), bursts <= 32 bits, byte insertions/deletions at every offset (stride on long streams), field-level edits with re-sealed CRC32 (structural mutator). Every mutant through the real reader (oracle: never clean end with different content; metadata edits always rejected) and through the Lean model (same outcome). Non-trivial: mutant differs from the base beyond the 12-byte stream header; distinct by mutant bytes."
 	rng := rand.New(rand.NewSource(a.seed))
-	nlib, flipBases, maxLen := 24, 5, 700
+	nlib, flipBases, maxLen := 40, 8, 800
 	if a.tier == "thorough" {
 		nlib, flipBases, maxLen = 120, 40, 3000
 	}
